@@ -10,6 +10,8 @@ rm -rf "$S"; mkdir -p "$S"
 rsync -a --exclude '.git' "$REPO/src/" "$S/src/"
 mkdir -p "$S/src/pkg/simrt"
 rsync -a "$V/sim/simrt/" "$S/src/pkg/simrt/"
+# export shims for unexported functions (scratch copy only)
+rsync -a "$V/sim/shims/" "$S/src/"
 rsync -a "$V/sim/harness/" "$S/sim/"
 cat > "$S/sim/go.mod" <<EOM
 module verifsim
